@@ -95,8 +95,29 @@ def _path3(h, idx, real_out):
     return not (bnm_before is not None and v <= bnm_before)
 
 
+def _predict_probe(h):
+    """read-only calls interleaved with the history: predict / score / reconstruction_error with the current selection
+    (nothing they cache may survive the next fit or update)"""
+    def probe(model, i):
+        if not hasattr(model, "ranked_sensors_") or (i * 7 + len(h.ops)) % 3 == 0:
+            return
+        nf = len(model.ranked_sensors_)
+        X = next((d for d in h.datasets if d.shape[1] == nf), None)
+        if X is None:
+            return
+        try:
+            sel = model.get_selected_sensors()
+            model.predict(X[:, sel])
+            model.score(X)
+            if i % 2 == 0:
+                model.reconstruction_error(X)
+        except Exception:
+            pass
+    return probe
+
+
 def judge(ctx, h, idx):
-    model, out = H.run_real(h)
+    model, out = H.run_real(h, probe=_predict_probe(h))
     if model is None:
         ctx.count("ctor_rejected")
         return None
@@ -117,6 +138,20 @@ def judge(ctx, h, idx):
         problems.append("basis_matrix")
     elif lead != ref["lead"]:
         problems.append("leading_ranking")
+    if not problems and final_x is not None and final_x.shape[1] == B.shape[0] and model.n_sensors:
+        # predictions with the model's CURRENT sensor count and selection vs least squares on the reference basis matrix
+        try:
+            sel = np.array(model.get_selected_sensors()).tolist()
+            got = np.asarray(model.predict(final_x[:, sel]))
+            Bs = ref["B"][sel, :]
+            cond = np.linalg.cond(Bs) if min(Bs.shape) else np.inf
+            if cond < 1e6:
+                want = (ref["B"] @ np.linalg.lstsq(Bs, final_x[:, sel].T, rcond=None)[0]).T
+                scale = 1 + float(np.max(np.abs(want)))
+                if got.shape != want.shape or not np.allclose(got, want, atol=1e-7 * scale * cond, rtol=0):
+                    problems.append("predictions")
+        except Exception:
+            pass
     if not problems and final_x is not None and len(lead) > 0:
         # predictions from the leading sensors: the model (n_sensors set to the number of leading sensors) against a
         # direct least-squares reconstruction with the reference basis matrix
